@@ -19,7 +19,7 @@ import (
 func TestMain(m *testing.M) {
 	vcore.Init("C11", "exploration",
 		"rapid histories over 2-3 sessions x 3 URRs mixing every emission site: data-plane reports and periodic reports (injected through the public NotifySessReport exactly as the netlink listener and the periodic server do, 1-3 reports per notification, also twice for one URR), "+
-			"bursts of 40-130 notifications to an SMF that answers none (all requests stay outstanding), Query URR (also twice in one message), Update URR returning a report, Remove URR, PDR removal / re-pointing that detaches the last reference, session deletion, URR re-creation after removal. "+
+			"one case in five plays an SMF whose Node ID is an IPv6 address (no Session Report Request can be addressed to it: its reports travel in responses only), bursts of 40-130 notifications to an SMF that answers none (all requests stay outstanding), Query URR (also twice in one message), Update URR returning a report, Remove URR, PDR removal / re-pointing that detaches the last reference, session deletion, URR re-creation after removal. "+
 			"Oracle: for each URR incarnation the UR-SEQN values observed at the SMF, in arrival order over Session Report Requests, Modification Responses and the Deletion Response, are exactly 0,1,...,n-1; incarnations and sessions are independent. "+
 			"non-trivial = a URR incarnation with reports in >= 2 different carriers, or a URR re-created after removal with >= 1 report in each incarnation; distinct by history",
 		"the oracle counts what is emitted; whether a report should have been emitted is C12's question",
@@ -47,6 +47,8 @@ type Case struct {
 	Double []uint32 `json:"double,omitempty"`
 	// Perm != 0: the child IEs of every Create / Update IE are sent in another order derived from it
 	Perm uint32 `json:"perm,omitempty"`
+	// SilentNode: the sessions belong to a node whose Node ID is an IPv6 address; no Session Report Request can be sent to it
+	SilentNode bool `json:"silent_node,omitempty"`
 }
 
 type inc struct {
@@ -60,6 +62,7 @@ type stats struct {
 	recreated    bool
 	reports      int
 	outstanding  int // report requests sent and never answered
+	unsendable   int // notifications for which no report request could be sent
 }
 
 // generator-side bookkeeping (assumes fault-free execution)
@@ -238,6 +241,7 @@ func gen(t *rapid.T) Case {
 	if rapid.IntRange(0, 2).Draw(t, "permute") == 0 {
 		c.Perm = rapid.Uint32Range(1, 1<<30).Draw(t, "perm")
 	}
+	c.SilentNode = rapid.IntRange(0, 4).Draw(t, "silent_node") == 0
 	return c
 }
 
@@ -273,7 +277,13 @@ func run(c Case) (v *vcore.Violation, stt stats) {
 		}
 		return []upfreport.USAReport{one}
 	}
-	st, err := stack.New(stack.Opts{Driver: d, Nodes: 2})
+	// node 1 names itself by an IPv6 address although the association runs over IPv4: the UPF cannot address report requests
+	// to it, its sessions' reports reach it in responses only - numbered without a gap all the same
+	st, err := stack.New(stack.Opts{Driver: d, Nodes: 2, NodeIDs: map[int]string{1: "2001:db8::b"}})
+	nd := 0
+	if c.SilentNode {
+		nd = 1
+	}
 	if err != nil {
 		panic(fmt.Sprintf("infrastructure: %v", err))
 	}
@@ -286,7 +296,7 @@ func run(c Case) (v *vcore.Violation, stt stats) {
 		}
 	}()
 	r := stack.NewRunner(st, d)
-	if o := r.Step(stack.Op{Kind: "assoc", Peer: 0, Node: 0, Sess: -1}); o.Dead != nil {
+	if o := r.Step(stack.Op{Kind: "assoc", Peer: nd, Node: nd, Sess: -1}); o.Dead != nil {
 		return vcore.Violatef(o.Dead.Key, "prefix"), stt
 	}
 	// harness session index -> runner session index
@@ -339,7 +349,7 @@ func run(c Case) (v *vcore.Violation, stt stats) {
 		switch ev.Kind {
 		case "est":
 			cpNext++
-			o := r.Step(stack.Op{Kind: "est", Peer: 0, Node: 0, Sess: -1, CP: cpNext, Rules: stack.Permute(ev.Rules, c.Perm)})
+			o := r.Step(stack.Op{Kind: "est", Peer: nd, Node: nd, Sess: -1, CP: cpNext, Rules: stack.Permute(ev.Rules, c.Perm)})
 			if o.Dead != nil {
 				return vcore.Violatef(o.Dead.Key, "event %d: UPF fatal exit: %.400s", i, o.Dead.Msg), stt
 			}
@@ -368,7 +378,11 @@ func run(c Case) (v *vcore.Violation, stt stats) {
 					}
 				}
 				r.Pending[0] = nil
-				stt.outstanding++
+				if len(o.SRRs) > 0 {
+					stt.outstanding++
+				} else if c.SilentNode {
+					stt.unsendable++
+				}
 			}
 		case "mod":
 			if !alive[ev.Sess] {
@@ -381,11 +395,11 @@ func run(c Case) (v *vcore.Violation, stt stats) {
 					cur[ikey{ev.Sess, ru.ID}] = &inc{carriers: map[string]bool{}}
 				}
 			}
-			o := r.Step(stack.Op{Kind: "mod", Peer: 0, Sess: ref[ev.Sess], Rules: stack.Permute(ev.Rules, c.Perm+uint32(i))})
+			o := r.Step(stack.Op{Kind: "mod", Peer: nd, Sess: ref[ev.Sess], Rules: stack.Permute(ev.Rules, c.Perm+uint32(i))})
 			if o.Dead != nil {
 				return vcore.Violatef(o.Dead.Key, "event %d: UPF fatal exit: %.400s", i, o.Dead.Msg), stt
 			}
-			for _, m := range o.Msgs[0] {
+			for _, m := range o.Msgs[nd] {
 				if mr, ok := m.(*message.SessionModificationResponse); ok {
 					if x := observe(i, ev.Sess, "SessionModificationResponse", mr); x != nil {
 						return x, stt
@@ -401,11 +415,11 @@ func run(c Case) (v *vcore.Violation, stt stats) {
 			if !alive[ev.Sess] {
 				continue
 			}
-			o := r.Step(stack.Op{Kind: "del", Peer: 0, Sess: ref[ev.Sess]})
+			o := r.Step(stack.Op{Kind: "del", Peer: nd, Sess: ref[ev.Sess]})
 			if o.Dead != nil {
 				return vcore.Violatef(o.Dead.Key, "event %d: UPF fatal exit: %.400s", i, o.Dead.Msg), stt
 			}
-			for _, m := range o.Msgs[0] {
+			for _, m := range o.Msgs[nd] {
 				if dr, ok := m.(*message.SessionDeletionResponse); ok {
 					if x := observe(i, ev.Sess, "SessionDeletionResponse", dr); x != nil {
 						return x, stt
@@ -431,6 +445,9 @@ func account(c Case, s stats) {
 	}
 	if s.recreated {
 		vcore.E.Class("urr_recreated_with_reports_in_both_incarnations")
+	}
+	if s.unsendable > 0 && s.reports > 0 {
+		vcore.E.Class("reports_in_responses_after_notifications_that_could_not_be_sent")
 	}
 	if s.outstanding > 64 {
 		vcore.E.Class("more_than_64_report_requests_outstanding")
